@@ -2,10 +2,13 @@
 //! column range inside that line.
 use super::super::*;
 
-/// Requires: `span` is a sub-slice of `input` on character boundaries (the `assert!` at
-/// the top of `new` is the function's real precondition).  Checks one (input, span).
-fn check_one(buf: &[u8; 8], n: usize, s: usize, e: usize) {
-    let input = unsafe { std::str::from_utf8_unchecked(&buf[..n]) };
+/// Requires: `span` = `input[s..e]` is a sub-slice of `input` on character boundaries
+/// (the `assert!` at the top of `new` is the function's real precondition).  Checks the
+/// real `ParseError::new` on that one (input, span) against a reference computed from
+/// the bytes.
+fn check_one(input: &'static str, s: usize, e: usize) {
+    let buf = input.as_bytes();
+    let n = buf.len();
     let span = &input[s..e];
     let err = ParseError::new(input, (LexErrorKind::EOF, span));
     // reference: line containing byte offset s
@@ -39,88 +42,423 @@ fn check_one(buf: &[u8; 8], n: usize, s: usize, e: usize) {
     std::mem::forget(err);
 }
 
-/// EVERY text of K items over {'\n', 'a', ' ', 'é' (2 bytes)} and EVERY sub-slice of it
-/// on character boundaries, enumerated with concrete loops: CBMC executes each call of
-/// the real `ParseError::new` on constants.  (The symbolic formulation - N symbolic
-/// bytes, symbolic or constant span - costs 220-330 s for ONE byte and does not finish
-/// in 400 s for two: the substring searcher (`memchr`) on symbolic content.)
-fn parse_error_new_all<const K: usize>() {
-    let mut total = 1;
-    let mut k = 0;
-    while k < K {
-        total *= 4;
-        k += 1;
-    }
-    let mut calls = 0u32;
-    let mut later_line = 0u32;
-    let mut idx = 0;
-    while idx < total {
-        // decode idx into K letters
-        let mut buf = [0u8; 8];
-        let mut n = 0;
-        let mut rem = idx;
-        let mut k = 0;
-        while k < K {
-            match rem % 4 {
-                0 => {
-                    buf[n] = b'\n';
-                    n += 1;
-                }
-                1 => {
-                    buf[n] = b'a';
-                    n += 1;
-                }
-                2 => {
-                    buf[n] = b' ';
-                    n += 1;
-                }
-                _ => {
-                    buf[n] = 0xc3;
-                    buf[n + 1] = 0xa9;
-                    n += 2;
-                }
-            }
-            rem /= 4;
-            k += 1;
-        }
-        let mut s = 0;
-        while s <= n {
-            if s == n || buf[s] & 0xc0 != 0x80 {
-                let mut e = s;
-                while e <= n {
-                    if e == n || buf[e] & 0xc0 != 0x80 {
-                        check_one(&buf, n, s, e);
-                        calls += 1;
-                        if s > 0 && buf[s - 1] == b'\n' && e > s {
-                            later_line += 1;
-                        }
-                    }
-                    e += 1;
-                }
-            }
-            s += 1;
-        }
-        idx += 1;
-    }
-    kani::cover!(calls > 0 && (K < 2 || later_line > 0), "enumeration completed, including spans on a later line");
+// EVERY text of up to 3 characters over {'\n', 'a', 'é' (2 bytes)} and EVERY sub-slice of
+// it on character boundaries, each spelled out as its own loop-free call on a string
+// literal (generated list).  The symbolic formulations were measured and given up: N
+// symbolic bytes with a symbolic or constant span cost 220-330 s for ONE byte and do not
+// finish in 400 s for two (the substring searcher `memchr` runs on a slice whose length
+// is a difference of pointer VALUES, which CBMC does not fold); a concrete enumeration
+// with loops does not finish either, for the same reason.
+#[kani::proof]
+#[kani::unwind(8)]
+fn parse_error_new__texts_of_0_and_1_chars() {
+    check_one("", 0, 0);
+    check_one("\n", 0, 0);
+    check_one("\n", 0, 1);
+    check_one("\n", 1, 1);
+    check_one("a", 0, 0);
+    check_one("a", 0, 1);
+    check_one("a", 1, 1);
+    check_one("\u{e9}", 0, 0);
+    check_one("\u{e9}", 0, 2);
+    check_one("\u{e9}", 2, 2);
+    kani::cover!(true, "list completed");
 }
 
 #[kani::proof]
 #[kani::unwind(8)]
-fn parse_error_new__all_texts_of_1_item() {
-    parse_error_new_all::<1>()
+fn parse_error_new__texts_of_2_chars_part1() {
+    check_one("\n\n", 0, 0);
+    check_one("\n\n", 0, 1);
+    check_one("\n\n", 0, 2);
+    check_one("\n\n", 1, 1);
+    check_one("\n\n", 1, 2);
+    check_one("\n\n", 2, 2);
+    check_one("\na", 0, 0);
+    check_one("\na", 0, 1);
+    check_one("\na", 0, 2);
+    check_one("\na", 1, 1);
+    check_one("\na", 1, 2);
+    check_one("\na", 2, 2);
+    check_one("\n\u{e9}", 0, 0);
+    check_one("\n\u{e9}", 0, 1);
+    check_one("\n\u{e9}", 0, 3);
+    check_one("\n\u{e9}", 1, 1);
+    check_one("\n\u{e9}", 1, 3);
+    check_one("\n\u{e9}", 3, 3);
+    kani::cover!(true, "list completed");
 }
 
 #[kani::proof]
-#[kani::unwind(18)]
-fn parse_error_new__all_texts_of_2_items() {
-    parse_error_new_all::<2>()
+#[kani::unwind(8)]
+fn parse_error_new__texts_of_2_chars_part2() {
+    check_one("a\n", 0, 0);
+    check_one("a\n", 0, 1);
+    check_one("a\n", 0, 2);
+    check_one("a\n", 1, 1);
+    check_one("a\n", 1, 2);
+    check_one("a\n", 2, 2);
+    check_one("aa", 0, 0);
+    check_one("aa", 0, 1);
+    check_one("aa", 0, 2);
+    check_one("aa", 1, 1);
+    check_one("aa", 1, 2);
+    check_one("aa", 2, 2);
+    check_one("a\u{e9}", 0, 0);
+    check_one("a\u{e9}", 0, 1);
+    check_one("a\u{e9}", 0, 3);
+    check_one("a\u{e9}", 1, 1);
+    check_one("a\u{e9}", 1, 3);
+    check_one("a\u{e9}", 3, 3);
+    kani::cover!(true, "list completed");
 }
 
 #[kani::proof]
-#[kani::unwind(66)]
-fn parse_error_new__all_texts_of_3_items() {
-    parse_error_new_all::<3>()
+#[kani::unwind(8)]
+fn parse_error_new__texts_of_2_chars_part3() {
+    check_one("\u{e9}\n", 0, 0);
+    check_one("\u{e9}\n", 0, 2);
+    check_one("\u{e9}\n", 0, 3);
+    check_one("\u{e9}\n", 2, 2);
+    check_one("\u{e9}\n", 2, 3);
+    check_one("\u{e9}\n", 3, 3);
+    check_one("\u{e9}a", 0, 0);
+    check_one("\u{e9}a", 0, 2);
+    check_one("\u{e9}a", 0, 3);
+    check_one("\u{e9}a", 2, 2);
+    check_one("\u{e9}a", 2, 3);
+    check_one("\u{e9}a", 3, 3);
+    check_one("\u{e9}\u{e9}", 0, 0);
+    check_one("\u{e9}\u{e9}", 0, 2);
+    check_one("\u{e9}\u{e9}", 0, 4);
+    check_one("\u{e9}\u{e9}", 2, 2);
+    check_one("\u{e9}\u{e9}", 2, 4);
+    check_one("\u{e9}\u{e9}", 4, 4);
+    kani::cover!(true, "list completed");
+}
+
+#[kani::proof]
+#[kani::unwind(10)]
+fn parse_error_new__texts_of_3_chars_part1() {
+    check_one("\n\n\n", 0, 0);
+    check_one("\n\n\n", 0, 1);
+    check_one("\n\n\n", 0, 2);
+    check_one("\n\n\n", 0, 3);
+    check_one("\n\n\n", 1, 1);
+    check_one("\n\n\n", 1, 2);
+    check_one("\n\n\n", 1, 3);
+    check_one("\n\n\n", 2, 2);
+    check_one("\n\n\n", 2, 3);
+    check_one("\n\n\n", 3, 3);
+    check_one("\n\na", 0, 0);
+    check_one("\n\na", 0, 1);
+    check_one("\n\na", 0, 2);
+    check_one("\n\na", 0, 3);
+    check_one("\n\na", 1, 1);
+    check_one("\n\na", 1, 2);
+    check_one("\n\na", 1, 3);
+    check_one("\n\na", 2, 2);
+    check_one("\n\na", 2, 3);
+    check_one("\n\na", 3, 3);
+    check_one("\n\n\u{e9}", 0, 0);
+    check_one("\n\n\u{e9}", 0, 1);
+    check_one("\n\n\u{e9}", 0, 2);
+    check_one("\n\n\u{e9}", 0, 4);
+    check_one("\n\n\u{e9}", 1, 1);
+    check_one("\n\n\u{e9}", 1, 2);
+    check_one("\n\n\u{e9}", 1, 4);
+    check_one("\n\n\u{e9}", 2, 2);
+    check_one("\n\n\u{e9}", 2, 4);
+    check_one("\n\n\u{e9}", 4, 4);
+    kani::cover!(true, "list completed");
+}
+
+#[kani::proof]
+#[kani::unwind(10)]
+fn parse_error_new__texts_of_3_chars_part2() {
+    check_one("\na\n", 0, 0);
+    check_one("\na\n", 0, 1);
+    check_one("\na\n", 0, 2);
+    check_one("\na\n", 0, 3);
+    check_one("\na\n", 1, 1);
+    check_one("\na\n", 1, 2);
+    check_one("\na\n", 1, 3);
+    check_one("\na\n", 2, 2);
+    check_one("\na\n", 2, 3);
+    check_one("\na\n", 3, 3);
+    check_one("\naa", 0, 0);
+    check_one("\naa", 0, 1);
+    check_one("\naa", 0, 2);
+    check_one("\naa", 0, 3);
+    check_one("\naa", 1, 1);
+    check_one("\naa", 1, 2);
+    check_one("\naa", 1, 3);
+    check_one("\naa", 2, 2);
+    check_one("\naa", 2, 3);
+    check_one("\naa", 3, 3);
+    check_one("\na\u{e9}", 0, 0);
+    check_one("\na\u{e9}", 0, 1);
+    check_one("\na\u{e9}", 0, 2);
+    check_one("\na\u{e9}", 0, 4);
+    check_one("\na\u{e9}", 1, 1);
+    check_one("\na\u{e9}", 1, 2);
+    check_one("\na\u{e9}", 1, 4);
+    check_one("\na\u{e9}", 2, 2);
+    check_one("\na\u{e9}", 2, 4);
+    check_one("\na\u{e9}", 4, 4);
+    kani::cover!(true, "list completed");
+}
+
+#[kani::proof]
+#[kani::unwind(10)]
+fn parse_error_new__texts_of_3_chars_part3() {
+    check_one("\n\u{e9}\n", 0, 0);
+    check_one("\n\u{e9}\n", 0, 1);
+    check_one("\n\u{e9}\n", 0, 3);
+    check_one("\n\u{e9}\n", 0, 4);
+    check_one("\n\u{e9}\n", 1, 1);
+    check_one("\n\u{e9}\n", 1, 3);
+    check_one("\n\u{e9}\n", 1, 4);
+    check_one("\n\u{e9}\n", 3, 3);
+    check_one("\n\u{e9}\n", 3, 4);
+    check_one("\n\u{e9}\n", 4, 4);
+    check_one("\n\u{e9}a", 0, 0);
+    check_one("\n\u{e9}a", 0, 1);
+    check_one("\n\u{e9}a", 0, 3);
+    check_one("\n\u{e9}a", 0, 4);
+    check_one("\n\u{e9}a", 1, 1);
+    check_one("\n\u{e9}a", 1, 3);
+    check_one("\n\u{e9}a", 1, 4);
+    check_one("\n\u{e9}a", 3, 3);
+    check_one("\n\u{e9}a", 3, 4);
+    check_one("\n\u{e9}a", 4, 4);
+    check_one("\n\u{e9}\u{e9}", 0, 0);
+    check_one("\n\u{e9}\u{e9}", 0, 1);
+    check_one("\n\u{e9}\u{e9}", 0, 3);
+    check_one("\n\u{e9}\u{e9}", 0, 5);
+    check_one("\n\u{e9}\u{e9}", 1, 1);
+    check_one("\n\u{e9}\u{e9}", 1, 3);
+    check_one("\n\u{e9}\u{e9}", 1, 5);
+    check_one("\n\u{e9}\u{e9}", 3, 3);
+    check_one("\n\u{e9}\u{e9}", 3, 5);
+    check_one("\n\u{e9}\u{e9}", 5, 5);
+    kani::cover!(true, "list completed");
+}
+
+#[kani::proof]
+#[kani::unwind(10)]
+fn parse_error_new__texts_of_3_chars_part4() {
+    check_one("a\n\n", 0, 0);
+    check_one("a\n\n", 0, 1);
+    check_one("a\n\n", 0, 2);
+    check_one("a\n\n", 0, 3);
+    check_one("a\n\n", 1, 1);
+    check_one("a\n\n", 1, 2);
+    check_one("a\n\n", 1, 3);
+    check_one("a\n\n", 2, 2);
+    check_one("a\n\n", 2, 3);
+    check_one("a\n\n", 3, 3);
+    check_one("a\na", 0, 0);
+    check_one("a\na", 0, 1);
+    check_one("a\na", 0, 2);
+    check_one("a\na", 0, 3);
+    check_one("a\na", 1, 1);
+    check_one("a\na", 1, 2);
+    check_one("a\na", 1, 3);
+    check_one("a\na", 2, 2);
+    check_one("a\na", 2, 3);
+    check_one("a\na", 3, 3);
+    check_one("a\n\u{e9}", 0, 0);
+    check_one("a\n\u{e9}", 0, 1);
+    check_one("a\n\u{e9}", 0, 2);
+    check_one("a\n\u{e9}", 0, 4);
+    check_one("a\n\u{e9}", 1, 1);
+    check_one("a\n\u{e9}", 1, 2);
+    check_one("a\n\u{e9}", 1, 4);
+    check_one("a\n\u{e9}", 2, 2);
+    check_one("a\n\u{e9}", 2, 4);
+    check_one("a\n\u{e9}", 4, 4);
+    kani::cover!(true, "list completed");
+}
+
+#[kani::proof]
+#[kani::unwind(10)]
+fn parse_error_new__texts_of_3_chars_part5() {
+    check_one("aa\n", 0, 0);
+    check_one("aa\n", 0, 1);
+    check_one("aa\n", 0, 2);
+    check_one("aa\n", 0, 3);
+    check_one("aa\n", 1, 1);
+    check_one("aa\n", 1, 2);
+    check_one("aa\n", 1, 3);
+    check_one("aa\n", 2, 2);
+    check_one("aa\n", 2, 3);
+    check_one("aa\n", 3, 3);
+    check_one("aaa", 0, 0);
+    check_one("aaa", 0, 1);
+    check_one("aaa", 0, 2);
+    check_one("aaa", 0, 3);
+    check_one("aaa", 1, 1);
+    check_one("aaa", 1, 2);
+    check_one("aaa", 1, 3);
+    check_one("aaa", 2, 2);
+    check_one("aaa", 2, 3);
+    check_one("aaa", 3, 3);
+    check_one("aa\u{e9}", 0, 0);
+    check_one("aa\u{e9}", 0, 1);
+    check_one("aa\u{e9}", 0, 2);
+    check_one("aa\u{e9}", 0, 4);
+    check_one("aa\u{e9}", 1, 1);
+    check_one("aa\u{e9}", 1, 2);
+    check_one("aa\u{e9}", 1, 4);
+    check_one("aa\u{e9}", 2, 2);
+    check_one("aa\u{e9}", 2, 4);
+    check_one("aa\u{e9}", 4, 4);
+    kani::cover!(true, "list completed");
+}
+
+#[kani::proof]
+#[kani::unwind(10)]
+fn parse_error_new__texts_of_3_chars_part6() {
+    check_one("a\u{e9}\n", 0, 0);
+    check_one("a\u{e9}\n", 0, 1);
+    check_one("a\u{e9}\n", 0, 3);
+    check_one("a\u{e9}\n", 0, 4);
+    check_one("a\u{e9}\n", 1, 1);
+    check_one("a\u{e9}\n", 1, 3);
+    check_one("a\u{e9}\n", 1, 4);
+    check_one("a\u{e9}\n", 3, 3);
+    check_one("a\u{e9}\n", 3, 4);
+    check_one("a\u{e9}\n", 4, 4);
+    check_one("a\u{e9}a", 0, 0);
+    check_one("a\u{e9}a", 0, 1);
+    check_one("a\u{e9}a", 0, 3);
+    check_one("a\u{e9}a", 0, 4);
+    check_one("a\u{e9}a", 1, 1);
+    check_one("a\u{e9}a", 1, 3);
+    check_one("a\u{e9}a", 1, 4);
+    check_one("a\u{e9}a", 3, 3);
+    check_one("a\u{e9}a", 3, 4);
+    check_one("a\u{e9}a", 4, 4);
+    check_one("a\u{e9}\u{e9}", 0, 0);
+    check_one("a\u{e9}\u{e9}", 0, 1);
+    check_one("a\u{e9}\u{e9}", 0, 3);
+    check_one("a\u{e9}\u{e9}", 0, 5);
+    check_one("a\u{e9}\u{e9}", 1, 1);
+    check_one("a\u{e9}\u{e9}", 1, 3);
+    check_one("a\u{e9}\u{e9}", 1, 5);
+    check_one("a\u{e9}\u{e9}", 3, 3);
+    check_one("a\u{e9}\u{e9}", 3, 5);
+    check_one("a\u{e9}\u{e9}", 5, 5);
+    kani::cover!(true, "list completed");
+}
+
+#[kani::proof]
+#[kani::unwind(10)]
+fn parse_error_new__texts_of_3_chars_part7() {
+    check_one("\u{e9}\n\n", 0, 0);
+    check_one("\u{e9}\n\n", 0, 2);
+    check_one("\u{e9}\n\n", 0, 3);
+    check_one("\u{e9}\n\n", 0, 4);
+    check_one("\u{e9}\n\n", 2, 2);
+    check_one("\u{e9}\n\n", 2, 3);
+    check_one("\u{e9}\n\n", 2, 4);
+    check_one("\u{e9}\n\n", 3, 3);
+    check_one("\u{e9}\n\n", 3, 4);
+    check_one("\u{e9}\n\n", 4, 4);
+    check_one("\u{e9}\na", 0, 0);
+    check_one("\u{e9}\na", 0, 2);
+    check_one("\u{e9}\na", 0, 3);
+    check_one("\u{e9}\na", 0, 4);
+    check_one("\u{e9}\na", 2, 2);
+    check_one("\u{e9}\na", 2, 3);
+    check_one("\u{e9}\na", 2, 4);
+    check_one("\u{e9}\na", 3, 3);
+    check_one("\u{e9}\na", 3, 4);
+    check_one("\u{e9}\na", 4, 4);
+    check_one("\u{e9}\n\u{e9}", 0, 0);
+    check_one("\u{e9}\n\u{e9}", 0, 2);
+    check_one("\u{e9}\n\u{e9}", 0, 3);
+    check_one("\u{e9}\n\u{e9}", 0, 5);
+    check_one("\u{e9}\n\u{e9}", 2, 2);
+    check_one("\u{e9}\n\u{e9}", 2, 3);
+    check_one("\u{e9}\n\u{e9}", 2, 5);
+    check_one("\u{e9}\n\u{e9}", 3, 3);
+    check_one("\u{e9}\n\u{e9}", 3, 5);
+    check_one("\u{e9}\n\u{e9}", 5, 5);
+    kani::cover!(true, "list completed");
+}
+
+#[kani::proof]
+#[kani::unwind(10)]
+fn parse_error_new__texts_of_3_chars_part8() {
+    check_one("\u{e9}a\n", 0, 0);
+    check_one("\u{e9}a\n", 0, 2);
+    check_one("\u{e9}a\n", 0, 3);
+    check_one("\u{e9}a\n", 0, 4);
+    check_one("\u{e9}a\n", 2, 2);
+    check_one("\u{e9}a\n", 2, 3);
+    check_one("\u{e9}a\n", 2, 4);
+    check_one("\u{e9}a\n", 3, 3);
+    check_one("\u{e9}a\n", 3, 4);
+    check_one("\u{e9}a\n", 4, 4);
+    check_one("\u{e9}aa", 0, 0);
+    check_one("\u{e9}aa", 0, 2);
+    check_one("\u{e9}aa", 0, 3);
+    check_one("\u{e9}aa", 0, 4);
+    check_one("\u{e9}aa", 2, 2);
+    check_one("\u{e9}aa", 2, 3);
+    check_one("\u{e9}aa", 2, 4);
+    check_one("\u{e9}aa", 3, 3);
+    check_one("\u{e9}aa", 3, 4);
+    check_one("\u{e9}aa", 4, 4);
+    check_one("\u{e9}a\u{e9}", 0, 0);
+    check_one("\u{e9}a\u{e9}", 0, 2);
+    check_one("\u{e9}a\u{e9}", 0, 3);
+    check_one("\u{e9}a\u{e9}", 0, 5);
+    check_one("\u{e9}a\u{e9}", 2, 2);
+    check_one("\u{e9}a\u{e9}", 2, 3);
+    check_one("\u{e9}a\u{e9}", 2, 5);
+    check_one("\u{e9}a\u{e9}", 3, 3);
+    check_one("\u{e9}a\u{e9}", 3, 5);
+    check_one("\u{e9}a\u{e9}", 5, 5);
+    kani::cover!(true, "list completed");
+}
+
+#[kani::proof]
+#[kani::unwind(10)]
+fn parse_error_new__texts_of_3_chars_part9() {
+    check_one("\u{e9}\u{e9}\n", 0, 0);
+    check_one("\u{e9}\u{e9}\n", 0, 2);
+    check_one("\u{e9}\u{e9}\n", 0, 4);
+    check_one("\u{e9}\u{e9}\n", 0, 5);
+    check_one("\u{e9}\u{e9}\n", 2, 2);
+    check_one("\u{e9}\u{e9}\n", 2, 4);
+    check_one("\u{e9}\u{e9}\n", 2, 5);
+    check_one("\u{e9}\u{e9}\n", 4, 4);
+    check_one("\u{e9}\u{e9}\n", 4, 5);
+    check_one("\u{e9}\u{e9}\n", 5, 5);
+    check_one("\u{e9}\u{e9}a", 0, 0);
+    check_one("\u{e9}\u{e9}a", 0, 2);
+    check_one("\u{e9}\u{e9}a", 0, 4);
+    check_one("\u{e9}\u{e9}a", 0, 5);
+    check_one("\u{e9}\u{e9}a", 2, 2);
+    check_one("\u{e9}\u{e9}a", 2, 4);
+    check_one("\u{e9}\u{e9}a", 2, 5);
+    check_one("\u{e9}\u{e9}a", 4, 4);
+    check_one("\u{e9}\u{e9}a", 4, 5);
+    check_one("\u{e9}\u{e9}a", 5, 5);
+    check_one("\u{e9}\u{e9}\u{e9}", 0, 0);
+    check_one("\u{e9}\u{e9}\u{e9}", 0, 2);
+    check_one("\u{e9}\u{e9}\u{e9}", 0, 4);
+    check_one("\u{e9}\u{e9}\u{e9}", 0, 6);
+    check_one("\u{e9}\u{e9}\u{e9}", 2, 2);
+    check_one("\u{e9}\u{e9}\u{e9}", 2, 4);
+    check_one("\u{e9}\u{e9}\u{e9}", 2, 6);
+    check_one("\u{e9}\u{e9}\u{e9}", 4, 4);
+    check_one("\u{e9}\u{e9}\u{e9}", 4, 6);
+    check_one("\u{e9}\u{e9}\u{e9}", 6, 6);
+    kani::cover!(true, "list completed");
 }
 
 /// Regression obligation with a multi-byte character in front of the span on a later
